@@ -340,7 +340,7 @@ func (s *Sys) Exec(toks []string) string {
 		if !strings.HasPrefix(res, "err") && !strings.HasPrefix(res, "panic") {
 			s.pending = append(s.pending, toks)
 		}
-	case "save", "wsave", "ctab", "rollback", "reopen", "reopenat", "load", "lvfo", "wlvfo", "savecs":
+	case "save", "wsave", "ctab", "rollback", "reopen", "reopenat", "load", "lvfo", "wlvfo", "dvreload", "savecs":
 		if !strings.HasPrefix(res, "err") {
 			s.pending = nil
 		}
@@ -536,6 +536,20 @@ func (s *Sys) exec1(toks []string) string {
 			return fmt.Sprintf("wp(%s;ops=%s;fl=%s)", errStr(err), strings.Join(ops, ","), strings.Join(fl, ","))
 		case "lvfo":
 			return errStr(t.LoadVersionForOverwriting(atoi(toks[1])))
+		case "dvreload":
+			// rollback "by deleting all versions above v and reloading": DeleteVersionsFrom(v+1),
+			// then either a new tree object (reopen) or LoadVersion(v) on the same one
+			v := atoi(toks[1])
+			if err := t.DeleteVersionsFrom(v + 1); err != nil {
+				return "err"
+			}
+			if toks[2] == "reopen" {
+				return errStr(s.open())
+			}
+			if _, err := t.LoadVersion(v); err != nil {
+				return "err"
+			}
+			return "ok"
 		case "wlvfo":
 			// a rollback whose physical writes are recorded, in order: node deletions/sets, fast
 			// index deletions/sets (values without the entry version) and label writes
